@@ -30,3 +30,9 @@ def run(ctx):
     from .restate import restate_f64_primitives
     from .c06 import find_sector
     restate_f64_primitives(ctx, [lambda: find_sector(ctx, ctx.roles)], "the sector routine")
+
+    # "the coordinate" in the statement is the one the reader hands out: the k-th read returns element k of the caller's slice and
+    # advances by one (restated from C14-a / C14-b — a reader that skips, repeats or offsets breaks this property from mimic_rng.rs)
+    from .restate import run_restated
+    run_restated(ctx, [("C14", {"C14-a": "the caller's slice reaches only the reader; its fields are touched only by its own methods",
+                                "C14-b": "the k-th read returns cache[k] and advances the counter by exactly one"})])
